@@ -428,3 +428,45 @@ func lateInnerEdgeCases() []*scen.Scenario {
 	}
 	return out
 }
+
+
+// sharedNodeCases: ONE node object is a member of two flow objects (run one after the other by an outer flow, or one
+// inside the other), and the same (node, action) pair is connected differently — or only in one of them: each flow
+// routes by its own table.
+func sharedNodeCases() []*scen.Scenario {
+	var out []*scen.Scenario
+	for kind := 0; kind < scen.NumScriptedKinds; kind++ {
+		for variant := 0; variant < 3; variant++ {
+			v := func(p string, n int) []scen.Visit {
+				var vs []scen.Visit
+				for i := 0; i < n; i++ {
+					vs = append(vs, scen.Visit{FirstOK: 1, Post: p})
+				}
+				return vs
+			}
+			nodes := []scen.NodeSpec{
+				{Kind: kind, N: 1, Visits: v("go", 4)},         // 0: X, the shared node
+				{Kind: scen.KPlain, N: 1, Visits: v("fin1", 4)}, // 1: Y1
+				{Kind: scen.KBase, N: 1, Visits: v("fin2", 4)},  // 2: Y2
+			}
+			f1 := &scen.FlowSpec{Start: 0, Conns: []scen.Conn{{From: 0, Action: "go", To: 1}}}
+			f2 := &scen.FlowSpec{Start: 0, Conns: []scen.Conn{{From: 0, Action: "go", To: 2}}}
+			switch variant {
+			case 1:
+				f2.Conns = nil // X is unconnected in the second flow: it ends there
+			case 2:
+				f1.Conns = []scen.Conn{{From: 0, Action: "go", To: -1}} // connected to nil in the first, to Y2 in the second
+			}
+			nodes = append(nodes, scen.NodeSpec{Kind: scen.KFlow, N: 1, Flow: f1}, scen.NodeSpec{Kind: scen.KFlow, N: 1, Flow: f2})
+			// outer: F1, then (whatever F1 ends with) F2
+			outer := &scen.FlowSpec{Start: 3, Conns: []scen.Conn{{From: 3, Action: "fin1", To: 4}, {From: 3, Action: "go", To: 4}}}
+			nodes = append(nodes, scen.NodeSpec{Kind: scen.KFlow, N: 1, Flow: outer})
+			out = append(out, &scen.Scenario{Nodes: nodes, Root: 5, Runs: 2, UseFlowRun: kind%2 == 0})
+			// and the other order of construction: F2's connections are made first
+			rev := &scen.Scenario{Nodes: append([]scen.NodeSpec(nil), nodes...), Root: 5, Runs: 1}
+			rev.Nodes[5] = scen.NodeSpec{Kind: scen.KFlow, N: 1, Flow: &scen.FlowSpec{Start: 4, Conns: []scen.Conn{{From: 4, Action: "fin2", To: 3}, {From: 4, Action: "go", To: 3}}}}
+			out = append(out, rev)
+		}
+	}
+	return out
+}
